@@ -370,6 +370,31 @@ Definition moving_ball_x (p : params) (t : target) (xs : list xsample) (elligibl
   else moving_from p (length xs)
          (cand_loop_ball_x p t (map (fun i => (i, nth i xs dummy_xsample)) elligibles)).
 
+(* ------------------------------------------------------------------ _moving with the ball-tree shortcut, as committed
+   (NeighMoving.cpp, fix 4a434731b): the tree is used only when
+     useBall = _useBallSearch && !getFlagXvalid() && !getFlagSector() && _bipts.empty() && !getFlagRotation()
+               && VH::isConstant(getAnisoCoeffs()) && _dbin->getNDim() == _biPtDist->getNDim()
+               && _nMaxi > 0 && _nMaxi <= nech && _nMini <= _nMaxi
+   and none of the samples returned by getBall().getIndices(_T1, _nMaxi) is masked or discarded by
+   _discardUndefined; otherwise the standard loop runs.  [moving_ball_x] above is the body of the shortcut. *)
+Definition coeffs_constant (p : params) : bool :=      (* _anisoCoeffs is (1,1) when no coefficient was given *)
+  if p_aniso p then match p_coeffs p with [] => false | c :: r => forallb (fun x => qeqb x c) (c :: r) end else true.
+Definition ball_premise (useball : bool) (p : params) (nech : nat) : bool :=
+  useball && negb (p_xvalid p) && negb (flag_sector p) &&
+  (match p_checkers p with [] => true | _ => false end) &&
+  negb (p_rot p) && coeffs_constant p && (p_ndim p =? p_nd p)%nat &&
+  (0 <? p_nmaxi p)%Z && (p_nmaxi p <=? Z.of_nat nech)%Z && (p_nmini p <=? p_nmaxi p)%Z.
+Definition ball_scan (xs : list xsample) (elligibles : list nat) : bool :=
+  forallb (fun i => let x := nth i xs dummy_xsample in x_active x && negb (discard_undefined_x x)) elligibles.
+Definition ball_taken (useball : bool) (p : params) (xs : list xsample) (elligibles : list nat) : bool :=
+  ball_premise useball p (length xs) && ball_scan xs elligibles.
+Definition moving_fixed_x (useball : bool) (p : params) (t : target) (xs : list xsample) (elligibles : list nat) : result :=
+  let nech := length xs in
+  if (Z.of_nat nech <? p_nmini p)%Z then fail 1
+  else if ball_taken useball p xs elligibles
+       then moving_from p nech (cand_loop_ball_x p t (map (fun i => (i, nth i xs dummy_xsample)) elligibles))
+       else moving_from p nech (cand_loop_x p t (enum xs)).
+
 End Moving.
 
 (* ------------------------------------------------------------------ NeighMoving::summary  (NeighMoving.cpp:406)
